@@ -111,7 +111,7 @@ func (t SSE) Do(w http.ResponseWriter, r *http.Request, exec graphql.GraphExecut
 
 	if opErr != nil {
 		resp := exec.DispatchError(ctx, opErr)
-		writeJsonWithSSE(w, resp)
+		c.write(func() { writeJsonWithSSE(w, resp) })
 	} else {
 		responses, ctx := exec.DispatchOperation(ctx, rc)
 		for {
@@ -119,14 +119,13 @@ func (t SSE) Do(w http.ResponseWriter, r *http.Request, exec graphql.GraphExecut
 			if response == nil {
 				break
 			}
-			writeJsonWithSSE(w, response)
-			c.flush()
+			c.write(func() { writeJsonWithSSE(w, response) })
 
 			c.resetTicker(t.KeepAlivePingInterval)
 		}
 	}
 
-	fmt.Fprint(w, "event: complete\n\n")
+	c.write(func() { fmt.Fprint(w, "event: complete\n\n") })
 }
 
 func (c *sseConnection) resetTicker(interval time.Duration) {
@@ -144,10 +143,19 @@ func (c *sseConnection) keepAlive(w io.Writer) {
 			c.keepAliveTicker.Stop()
 			return
 		case <-c.keepAliveTicker.C:
-			fmt.Fprintf(w, ": ping\n\n")
-			c.flush()
+			c.write(func() { fmt.Fprintf(w, ": ping\n\n") })
 		}
 	}
+}
+
+// write runs f, which writes to the response, and flushes it while holding the
+// connection lock: the event loop and the keep-alive goroutine share the
+// ResponseWriter, which is not safe for concurrent use.
+func (c *sseConnection) write(f func()) {
+	c.mu.Lock()
+	defer c.mu.Unlock()
+	f()
+	c.f.Flush()
 }
 
 func (c *sseConnection) flush() {
